@@ -1,4 +1,5 @@
 """Rules about the stage pipeline shared by C03, C07, C08, C09 (rule ids keep their home prefix)."""
+import re
 from lib.peval import PE, some, NONE
 from lib.prov import Prov
 from rules import common
